@@ -30,6 +30,7 @@ type Expr struct {
 	Op  string `json:"op,omitempty"`
 	L   *Expr  `json:"l,omitempty"`
 	R   *Expr  `json:"r,omitempty"`
+	Bt  bool   `json:"bt,omitempty"` // agg over a plain column: the column is written in back quotes
 }
 
 type Item struct {
@@ -101,6 +102,9 @@ func (e *Expr) sql(upper bool) string {
 		fn := e.Fn
 		if upper {
 			fn = strings.ToUpper(fn)
+		}
+		if e.Bt && e.Arg != "*" && !exprArg(e.Arg) {
+			return fn + "(`" + e.Arg + "`)"
 		}
 		return fn + "(" + e.Arg + ")"
 	case "lit":
@@ -418,7 +422,9 @@ func genAgg(t *rapid.T, nullable bool) *Expr {
 	if fn == "count" && rapid.Bool().Draw(t, "star") {
 		col = "*"
 	}
-	return agg(fn, col)
+	a := agg(fn, col)
+	a.Bt = col != "*" && rapid.IntRange(0, 7).Draw(t, "backquoted") == 0
+	return a
 }
 
 // a divisor that cannot be zero: count(*), an aggregate over the positive column z, or (count(*) + k)
@@ -1588,7 +1594,7 @@ func features(c Case) []string {
 
 var spec = pbt.Spec[Case]{
 	ID:   "C07",
-	Rule: "generated programs over two batch sources: an event-time tumbling window (1-2 consecutive windows, 1-5 groups interleaved, then a flush row) giving multi-group batches, and CountingWindow(N) without grouping giving 1-4 single-group batches. SELECT items (aliased a0, a1, .. or, half of the time, with names that contain keywords as parts of words: lowercase_0, order_1, is_2, band3, end_4, ..): agg(x), agg(x) op lit, agg(x) op lit op lit, lit op agg(x), agg(x) op agg(y), (agg op lit) op X, X op (agg op Y), (agg op X), (agg(x)), ((agg op lit) op lit) op agg, agg(x*2), agg(x*2) op lit, agg(x+y)/agg(z), agg(x*2) op agg(y*3) [op agg(..)] over 7 arithmetic arguments; agg in sum/avg/min/max/count, divisors never zero; upper/lower-case function names. HAVING: 1-3 comparisons (> >= < <= and = on exact operands) of an alias, a selected aggregate, an unselected aggregate, arithmetic over two aggregates or an aggregate over an arithmetic argument with a threshold drawn next to the groups' values, joined by AND/OR with optional parentheses, written before or after WITH. ORDER BY 1-2 output columns (aliases, g) ASC/DESC; LIMIT 1..groups+1; DISTINCT incl. count(*)-only projections. values: small ints and quarter-step floats, x NULL/missing in some rows, w often NULL (w-items never used in HAVING/ORDER BY). oracle: relational reference (reference aggregates, float64 arithmetic, NULL-propagating), HAVING -> projection -> DISTINCT -> ORDER BY -> LIMIT per batch: key set, item values (rel. tol 1e-9), exact HAVING membership, ORDER BY validity of adjacent rows, LIMIT size and prefix-of-a-valid-order, no duplicates under DISTINCT, one delivery per batch with a survivor and none otherwise. non-trivial = (a compound item or a HAVING operand that is not a selected column) and a batch with >= 2 groups; distinct by case hash",
+	Rule: "generated programs over two batch sources: an event-time tumbling window (1-2 consecutive windows, 1-5 groups interleaved, then a flush row) giving multi-group batches, and CountingWindow(N) without grouping giving 1-4 single-group batches. SELECT items (aliased a0, a1, .. or, half of the time, with names that contain keywords as parts of words: lowercase_0, order_1, is_2, band3, end_4, ..): agg(x), agg(x) op lit, agg(x) op lit op lit, lit op agg(x), agg(x) op agg(y), (agg op lit) op X, X op (agg op Y), (agg op X), (agg(x)), ((agg op lit) op lit) op agg, agg(x*2), agg(x*2) op lit, agg(x+y)/agg(z), agg(x*2) op agg(y*3) [op agg(..)] over 7 arithmetic arguments; agg in sum/avg/min/max/count, the column now and then in back quotes, divisors never zero; upper/lower-case function names. HAVING: 1-3 comparisons (> >= < <= and = on exact operands) of an alias, a selected aggregate, an unselected aggregate, arithmetic over two aggregates or an aggregate over an arithmetic argument with a threshold drawn next to the groups' values, joined by AND/OR with optional parentheses, written before or after WITH. ORDER BY 1-2 output columns (aliases, g) ASC/DESC; LIMIT 1..groups+1; DISTINCT incl. count(*)-only projections. values: small ints and quarter-step floats, x NULL/missing in some rows, w often NULL (w-items never used in HAVING/ORDER BY). oracle: relational reference (reference aggregates, float64 arithmetic, NULL-propagating), HAVING -> projection -> DISTINCT -> ORDER BY -> LIMIT per batch: key set, item values (rel. tol 1e-9), exact HAVING membership, ORDER BY validity of adjacent rows, LIMIT size and prefix-of-a-valid-order, no duplicates under DISTINCT, one delivery per batch with a survivor and none otherwise. non-trivial = (a compound item or a HAVING operand that is not a selected column) and a batch with >= 2 groups; distinct by case hash",
 	Assumptions: []string{
 		"ties and NULL placement under ORDER BY are unspecified (NULL sort keys are not generated); two sort keys within 1e-9 of each other whose value is inexact (avg, division, non-dyadic literal) count as a tie in either direction, whatever the later keys say",
 		"a HAVING comparison whose inexact operand (avg, division, non-dyadic literal) is within 1e-9 of the threshold may go either way",
